@@ -169,6 +169,10 @@ func constructField(fieldType string, spec *field.Spec, index string) (f field.F
 }
 
 func importField(dummyField *fieldDummy, index string) (*field.Spec, error) {
+	if dummyField == nil {
+		return nil, fmt.Errorf("missing definition for field: %s", index)
+	}
+
 	fieldSpec := &field.Spec{
 		Length:      dummyField.Length,
 		Description: dummyField.Description,
@@ -223,11 +227,16 @@ func importField(dummyField *fieldDummy, index string) (*field.Spec, error) {
 				return nil, err
 			}
 
-			if bitmapSpec.Length < 0 {
-				return nil, fmt.Errorf("negative bitmap length: %d for field: %s", bitmapSpec.Length, index)
+			bitmapField, err := constructField("Bitmap", bitmapSpec, index)
+			if err != nil {
+				return nil, err
 			}
 
-			fieldSpec.Bitmap = field.NewBitmap(bitmapSpec)
+			bitmap, ok := bitmapField.(*field.Bitmap)
+			if !ok {
+				return nil, fmt.Errorf("bitmap of field: %s is not a Bitmap", index)
+			}
+			fieldSpec.Bitmap = bitmap
 		}
 
 	}
